@@ -336,7 +336,7 @@ fn check_safety(t: &[[f32; 3]], sc: SafetyCfg, r: &mut Report) {
 
 /// The camera door: Camera::new(dims).viewport(request) with requests that overhang the frame must clamp to the frame -
 /// no panic, nothing written outside frame ∩ request.
-fn check_safety_camera(t: &[[f32; 3]], dims: (u32, u32), req: (u32, u32, u32, u32), r: &mut Report) {
+fn check_safety_camera(t: &[[f32; 3]], dims: (u32, u32), req: (u32, u32, u32, u32), alt: bool, r: &mut Report) {
     use re::render::{Camera, World};
     use re::math::mat::RealToReal;
     r.eval();
@@ -346,11 +346,16 @@ fn check_safety_camera(t: &[[f32; 3]], dims: (u32, u32), req: (u32, u32, u32, u3
         fn shade_vertex(&self, v: Vertex<Point3<World>, f32>, (m, _): (&'a Mat4x4<RealToProj<World>>, ())) -> Self::Output { vertex(m.apply(&v.pos), v.attrib) }
     }
     impl FragmentShader<f32> for CamShader { fn shade_fragment(&self, _: Frag<f32>) -> Option<re::math::color::Color4> { Some(re::math::color::rgba(1, 2, 3, 4)) } }
-    let case = || obj! {"kind" => "safety-camera", "verts" => J::Arr(t.iter().flatten().map(|x| fbits(*x)).collect()), "dims" => vec![dims.0, dims.1], "req" => vec![req.0, req.1, req.2, req.3]};
+    let case = || obj! {"kind" => "safety-camera", "verts" => J::Arr(t.iter().flatten().map(|x| fbits(*x)).collect()), "dims" => vec![dims.0, dims.1], "req" => vec![req.0, req.1, req.2, req.3], "alt" => alt};
     let tag = format!("camera|{dims:?}|req{req:?}|{t:?}");
     let verts: Vec<Vertex<Point3<World>, f32>> = t.iter().map(|p| vertex(pt3(p[0], p[1], p[2]), 0.5)).collect();
     // (both builder orders, by parity of the request's origin: mode() then viewport(), and viewport() then mode())
-    let cam = match caught(|| { let id = Mat4x4::<RealToReal<3, World, View>>::identity(); if (req.0 + req.1) % 2 == 1 { Camera::new(dims).viewport((req.0..req.2, req.1..req.3)).mode(id).perspective(1.0, 1.0..1000.0) } else { Camera::new(dims).mode(id).viewport((req.0..req.2, req.1..req.3)).perspective(1.0, 1.0..1000.0) } }) { Ok(c) => c, Err(p) => { r.violation(format!("render-panic|camera-setup|{tag}"), format!("Camera::viewport({req:?}) on a {dims:?} frame panicked: {p}"), case()); return; } };
+    // requests that do not meet the frame (or have no width or height): the projection is set up before the viewport, or
+    // (`alt`) after it - perspective() then has no aspect ratio to work with and may refuse, by its
+    // documented assertion; what it may not do is hand over a camera whose render() panics
+    let empty = req.0.min(dims.0) >= req.2.min(dims.0) || req.1.min(dims.1) >= req.3.min(dims.1);
+    let persp_first = empty && !alt;
+    let cam = match caught(|| { let id = Mat4x4::<RealToReal<3, World, View>>::identity(); if persp_first { Camera::new(dims).mode(id).perspective(1.0, 1.0..1000.0).viewport((req.0..req.2, req.1..req.3)) } else if (req.0 + req.1) % 2 == 1 { Camera::new(dims).viewport((req.0..req.2, req.1..req.3)).mode(id).perspective(1.0, 1.0..1000.0) } else { Camera::new(dims).mode(id).viewport((req.0..req.2, req.1..req.3)).perspective(1.0, 1.0..1000.0) } }) { Ok(c) => c, Err(p) if empty && p.contains("aspect ratio") => { r.h("camera-setup:perspective-refuses-empty-viewport"); return; } Err(p) => { r.violation(format!("render-panic|camera-setup|{tag}"), format!("Camera::viewport({req:?}) on a {dims:?} frame panicked: {p}"), case()); return; } };
     let mut fb = Framebuf { color_buf: Buf2::<u32>::new_from(dims, (0..).map(|i| 0x7E57_0000 | i)), depth_buf: Buf2::<f32>::new_from(dims, (0..).map(|i| 1e-9 * (1 + i) as f32)) };
     let to_world: Mat4x4<RealToReal<3, World, World>> = Mat4x4::identity();
     if let Err(p) = caught(|| cam.render([Tri([0, 1, 2])], &verts, &to_world, &CamShader, (), &mut fb, &Context { face_cull: None, ..Context::default() })) { r.violation(format!("render-panic|camera|{tag}"), format!("Camera::render with an overhanging viewport request panicked: {p}"), case()); return; }
@@ -427,11 +432,14 @@ fn run_safety(cfg: &Cfg) -> ! {
         for b in [[796.3793f32, 981.8133, 457.11987], [530.47815, 44.172913, -505.40768], [438.91547, 540.42676, 660.78845], [614.0768, 70.73633, -665.72485], [861.4812, 590.69104, 144.27612], [418.86646, 658.664, -201.41888]] { for sx in [-1.0f32, 1.0] { for sy in [-1.0f32, 1.0] { far_pts.push([b[0] * sx, b[1] * sy, b[2]]); } } }
         let (nn, nf) = (near_pts.len() as u64, far_pts.len() as u64);
         let wide = [(13u8, 4096u32, 4u32), (1, 16384, 4), (14, 2048, 6), (13, 6, 4096), (2, 8192, 3)];
-        rep.merge(par_range(cfg, nn * nf * nf * 5, |i, r| {
-            let (a, b, c, k) = (i % nn, i / nn % nf, i / nn / nf % nf, (i / nn / nf / nf) as usize);
+        rep.merge(par_range(cfg, nn * nf * nf * 5 * 2, |i, r| {
+            let (a, b, c, k, inset) = (i % nn, i / nn % nf, i / nn / nf % nf, (i / nn / nf / nf % 5) as usize, i / nn / nf / nf / 5 == 1);
             if b == c { return; }
             let (proj, bw, bh) = wide[k];
             let t = [far_pts[b as usize], near_pts[a as usize], far_pts[c as usize]];
+            // (second pass: the same viewport inset by (16, 2) in a larger target - a vertex beyond the left or top plane then
+            // lands on pixels that exist)
+            if inset { check_safety(&t, SafetyCfg { proj, bw: bw + 32, bh: bh + 4, vp: (16, 2, 16 + bw, 2 + bh), flags: [0u32, 13, 9][(i % 3) as usize], sub: i % 2 == 1 }, r); r.h("wide-target-far-vertex-scene-inset"); return; }
             check_safety(&t, SafetyCfg { proj, bw, bh, vp: (0, 0, bw, bh), flags: [0u32, 13, 9][(i % 3) as usize], sub: i % 2 == 1 }, r);
             r.h("wide-target-far-vertex-scene");
         }));
@@ -452,12 +460,14 @@ fn run_safety(cfg: &Cfg) -> ! {
     {
         let pts = safety_lattice(true, 1000.0);
         let n = pts.len() as u64;
-        let reqs = [((7u32, 5u32), (0u32, 0u32, 100u32, 100u32)), ((7, 5), (3, 0, 40, 5)), ((7, 5), (2, 1, 9, 3)), ((5, 7), (0, 3, 4, 30)), ((16, 9), (0, 0, 16, 16)), ((9, 16), (0, 0, 16, 16))];
+        let reqs = [((7u32, 5u32), (0u32, 0u32, 100u32, 100u32)), ((7, 5), (3, 0, 40, 5)), ((7, 5), (2, 1, 9, 3)), ((5, 7), (0, 3, 4, 30)), ((16, 9), (0, 0, 16, 16)), ((9, 16), (0, 0, 16, 16)),
+            // requests without height or width, and requests wholly right of, below, or diagonally off the frame
+            ((8, 8), (2, 3, 6, 3)), ((8, 8), (3, 2, 3, 6)), ((8, 8), (10, 2, 20, 6)), ((8, 8), (2, 12, 6, 20)), ((16, 9), (20, 20, 30, 30)), ((8, 8), (8, 0, 9, 8))];
         rep.merge(par_range(cfg, n * n * n / if quick { 7 } else { 1 }, |j, r| {
             let i = if quick { j * 7 + j % 7 } else { j };
             let t = [pts[(i % n) as usize], pts[(i / n % n) as usize], pts[((i / n / n) % n) as usize]];
-            let (dims, req) = reqs[(i % 6) as usize];
-            check_safety_camera(&t, dims, req, r);
+            let (dims, req) = reqs[(i % 12) as usize];
+            check_safety_camera(&t, dims, req, i / 12 % 2 == 1, r);
         }));
     }
     // a millimetre-scale scene (near 0.001) on wide and tall targets: vertices a few 1e-7 outside the side planes in
@@ -1232,7 +1242,7 @@ fn main() {
                     let t: Vec<[f32; 3]> = f.chunks(3).map(|c| [c[0], c[1], c[2]]).collect();
                     let u = |k: &str| -> Vec<u32> { c.get(k).unwrap().as_arr().unwrap().iter().map(|x| x.as_u64().unwrap() as u32).collect() };
                     let (d, q) = (u("dims"), u("req"));
-                    check_safety_camera(&t, (d[0], d[1]), (q[0], q[1], q[2], q[3]), r)
+                    check_safety_camera(&t, (d[0], d[1]), (q[0], q[1], q[2], q[3]), c.get("alt") == Some(&J::Bool(true)), r)
                 }
                 "order" | "painter" => explore_order(&scene_from(c.get("scene").unwrap()), r, 0, if c.get("discard").and_then(|j| j.as_str()) == Some("Parity") { Discard::Parity } else { Discard::Never }),
                 "config" => check_config_door(&scene_from(c.get("scene").unwrap()), c.get("flags").unwrap().as_u64().unwrap() as u32, match c.get("discard").and_then(|j| j.as_str()).unwrap_or("") { "Always" => Discard::Always, "Parity" => Discard::Parity, _ => Discard::Never }, kind(c), match c.get("door").and_then(|j| j.as_str()).unwrap_or("") { "Batch" => Door::Batch, "Camera" => Door::Camera, _ => Door::Render }, r),
